@@ -6,16 +6,16 @@ SPEC = dict(
     level_text="For generated (database, query, options) cases the answer to a case re-spelling of the query (upper / lower / title / alternating / "
                "random masks over letters whose lower-casing agrees with simple folding) must equal the answer to the query, on the lexical, NLP "
                "(clue phrases in mixed case), typo-fallback and cached paths; at the CLI, re-cased and blank-padded command lines must print the "
-               "same JSON result block. Per database three more pairs whose variant carries blanks that are not ASCII (U+00A0, U+3000, U+2002/3/9, U+202F, U+205F, U+1680) next to an ordinary blank or at the ends, two of them misspelt requests. Per-path pair counts are floors.",
+               "same JSON result block. Per database three more pairs whose variant carries blanks that are not ASCII (U+00A0, U+3000, U+2002/3/9, U+202F, U+205F, U+1680) next to an ordinary blank or at the ends, two of them misspelt requests. Per-path pair counts are floors. Per database three more CLI pairs are requests that only the last-resort search answers, opened by a little word (how, the, please, show me ...) whose case is what differs.",
     level_note="Re-spelling touches only runes r with ToLower(ToUpper(r)) == ToLower(r), ToUpper(ToLower(r)) == ToUpper(r) and r one of the two "
                "(the statement's carve-out for U+0130-like code points, final sigma, long s, dotless i, Kelvin sign).",
     engines=[dict(name="caseinv", shards=T(16, 16), timeout=T(900, 3600)),
              dict(name="caseinv-cli", shards=T(16, 16), timeout=T(900, 3600), needs_wtf=True)],
     rule="case = (database, query, re-spelt query, options); non-trivial = the answer to the query is non-empty; distinct by (db, query, variant, options). "
          "CLI: (db, query, variant, limit) with a non-empty result block.",
-    floors=T({"cli-pairs-with-non-ascii-blanks": 90, "pairs-lexical": 1000, "pairs-nlp": 1000, "pairs-fuzzy": 300, "cached-variant-hit": 500, "cli-pairs-nonempty": 60, "cli-pairs-blanks": 25, "cli-pipeline-pairs-nonempty": 60, "cli-pipeline-misspelt-queries": 120, "cli-queries-wrapped-in-quote-characters": 50, "cli-homes-with-a-special-casing-locale": 8, "nlp-vocabulary-sweep": 3000, "databases-with-a-cased-embedding-vocabulary": 15, "cli-homes-inside-a-project-with-capitalised-targets": 8,
+    floors=T({"cli-pairs-opened-by-a-little-word": 50, "cli-pairs-with-non-ascii-blanks": 90, "pairs-lexical": 1000, "pairs-nlp": 1000, "pairs-fuzzy": 300, "cached-variant-hit": 500, "cli-pairs-nonempty": 60, "cli-pairs-blanks": 25, "cli-pipeline-pairs-nonempty": 60, "cli-pipeline-misspelt-queries": 120, "cli-queries-wrapped-in-quote-characters": 50, "cli-homes-with-a-special-casing-locale": 8, "nlp-vocabulary-sweep": 3000, "databases-with-a-cased-embedding-vocabulary": 15, "cli-homes-inside-a-project-with-capitalised-targets": 8,
               "distinct_nontrivial": 3000},
-             {"cli-pairs-with-non-ascii-blanks": 2500, "pairs-lexical": 10000, "pairs-nlp": 10000, "pairs-fuzzy": 3000, "cached-variant-hit": 5000, "cli-pairs-nonempty": 600, "cli-pairs-blanks": 250, "cli-pipeline-pairs-nonempty": 1500, "cli-pipeline-misspelt-queries": 3000, "cli-queries-wrapped-in-quote-characters": 1500, "cli-homes-with-a-special-casing-locale": 250, "nlp-vocabulary-sweep": 3000, "databases-with-a-cased-embedding-vocabulary": 800, "cli-homes-inside-a-project-with-capitalised-targets": 250,
+             {"cli-pairs-opened-by-a-little-word": 1000, "cli-pairs-with-non-ascii-blanks": 2500, "pairs-lexical": 10000, "pairs-nlp": 10000, "pairs-fuzzy": 3000, "cached-variant-hit": 5000, "cli-pairs-nonempty": 600, "cli-pairs-blanks": 250, "cli-pipeline-pairs-nonempty": 1500, "cli-pipeline-misspelt-queries": 3000, "cli-queries-wrapped-in-quote-characters": 1500, "cli-homes-with-a-special-casing-locale": 250, "nlp-vocabulary-sweep": 3000, "databases-with-a-cased-embedding-vocabulary": 800, "cli-homes-inside-a-project-with-capitalised-targets": 250,
               "distinct_nontrivial": 30000}),
     assumptions=["CLI comparison is on the parsed result block (entry + score with -v); the 'Searching for:' echo legitimately differs in case",
                  "the binary runs under the locale variables a shell may export (C, en_US, de_DE, el_GR and the special-casing tr_TR, az_AZ, lt_LT), the same for both spellings of a pair",
